@@ -75,8 +75,12 @@ def validate(outdir, pid, k):
         if feats:
             rc, out2 = sh("cargo test --offline --features %s --test integration 2>&1 | grep -E '^test result|FAILED|^error' | head" % feats, wt)
             res["ran"].append("cargo test --offline --features %s --test integration   (with the change)" % feats)
-            suite_ok = suite_ok and "FAILED" not in out2 and "test result: ok" in out2
-            res["suite_passes_with_features"] = suite_ok
+            f_ok = "FAILED" not in out2 and "test result: ok" in out2
+            res["suite_passes_with_features"] = f_ok
+            # the pinned baseline (60 tests) is the default-feature suite; for the feature-specific
+            # properties C18/C19 the feature suite is required too, otherwise it is recorded only
+            if pid in ("C18", "C19"):
+                suite_ok = suite_ok and f_ok
         if not suite_ok:
             res["ok"] = False
             res["why"] = "existing suite fails with the change: " + out[-400:]
@@ -116,7 +120,7 @@ def main():
             note = open(r["note"]).read() if r.get("note") else ""
             meta = {"breaks_property": pid, "name": name, "features": r["features"],
                     "needs_to_manifest": note, "validated_against_repo_head": subprocess.check_output(["git", "-C", REPO, "rev-parse", "--short", "HEAD"], text=True).strip(),
-                    "what_was_run": r["ran"], "suite_summary": r.get("suite_summary"), "demo_output_with_change": r.get("demo_output_tail"),
+                    "what_was_run": r["ran"], "suite_summary": r.get("suite_summary"), "feature_suite_passes_with_change": r.get("suite_passes_with_features"), "demo_output_with_change": r.get("demo_output_tail"),
                     "origin": "independent sub-agent given only the property text and a scratch worktree"}
             json.dump(meta, open(os.path.join(d, "meta.json"), "w"), indent=1)
 
